@@ -138,14 +138,34 @@ def build(tier="quick", seed=0):
             return out
 
         pack.add(Obligation(name, lambda tier, name=name, th=th, want=want: prove_paths(name, th, lambda p: (p.value == [want, want], f"parsed as {p.value}, expected {want} (naive text means UTC)")), replay=lambda w, text=text: {"call": "c13_text", "args": {"text": text}}, functions=FU, mode="representative value"))
+    def under_tz(tzname, fn):
+        """runs fn with the process time zone (TZ) set to tzname: an epoch number names an instant, the system time zone must not enter"""
+        import os as _os
+        import time as _time
+
+        saved = _os.environ.get("TZ")
+        _os.environ["TZ"] = tzname
+        _time.tzset()
+        try:
+            return fn()
+        finally:
+            if saved is None:
+                _os.environ.pop("TZ", None)
+            else:
+                _os.environ["TZ"] = saved
+            _time.tzset()
+
     for ep, want in EPOCHS.items():
-        name = f"C13.new[from epoch, {ep}]"
+      for systz in (None, "Asia/Tokyo", "America/New_York"):
+        name = f"C13.new[from epoch, {ep}" + (f", system time zone {systz}]" if systz else "]")
 
-        def th(ep=ep):
-            b = it.unbase(it.call(DT, [ep], {}))
-            return (b.year, b.month, b.day, b.hour, b.minute, b.second, b.microsecond), b.utcoffset().total_seconds() if b.utcoffset() is not None else None
+        def th(ep=ep, systz=systz):
+            def body():
+                b = it.unbase(it.call(DT, [ep], {}))
+                return (b.year, b.month, b.day, b.hour, b.minute, b.second, b.microsecond), b.utcoffset().total_seconds() if b.utcoffset() is not None else None
+            return under_tz(systz, body) if systz else body()
 
-        pack.add(Obligation(name, lambda tier, name=name, th=th, want=want: prove_paths(name, th, lambda p: (p.value == (want, 0.0), f"epoch number became {p.value}")), replay=lambda w, ep=ep: {"call": "c13_epoch", "args": {"ep": ep}}, functions=FU, mode="representative value"))
+        pack.add(Obligation(name, lambda tier, name=name, th=th, want=want: prove_paths(name, th, lambda p: (p.value == (want, 0.0), f"epoch number became {p.value}")), replay=lambda w, ep=ep, systz=systz: {"call": "c13_epoch", "args": {"ep": ep, "systz": systz}}, functions=FU, mode="representative value"))
 
     # ------------------------------------------------------------------ B. storage formats, symbolic timestamps
     def rec_with(t):
@@ -202,7 +222,13 @@ def build(tier="quick", seed=0):
         if isinstance(stored, ISOText):
             return stored.sep == "T" and stored.dt is b or (stored.sep == "T" and stored.dt.same_as(b) is not False)
         if isinstance(b, _dt.datetime):
-            return it.unbase(stored) == b.isoformat()
+            # the stored text is ISO 8601 text of this very value (its own wall clock and offset - not the display time zone's); the exact layout
+            # (fraction written or left out when zero) is not part of the property
+            try:
+                d2 = _dt.datetime.fromisoformat(it.unbase(stored))
+            except (ValueError, TypeError):
+                return False
+            return d2.tzinfo is not None and d2.utcoffset() == b.utcoffset() and d2.replace(tzinfo=None) == b.replace(tzinfo=None) and "T" in it.unbase(stored)
         return False
 
     for fmt, via in FORMATS.items():
